@@ -1,4 +1,30 @@
 //@@ unit props=C05,C06,C08,C17
+// Unit range: the `Range<T>` data structure of src/lib.rs (verbatim text), generic over `T: CellType`.  Serves C05;
+// its contracts (Range::range, from_sparse, accessors) are what the C08 / C17 units call.
+//
+// C05 quantifies over *every sequence* of constructions and mutations.  That history quantifier is discharged by
+// modularity, not by exploration: every constructor `ensures r.wf()`, every mutator `requires old(self).wf()` and
+// `ensures final(self).wf()`, every accessor `requires self.wf()`, and every postcondition describes the complete
+// abstract view afterwards (bounds `lo()/hi()` + value `at(r, c)` at every position: written cell, frame, defaults).
+// By induction on the length of the history, the invariant and the accessor agreement hold after any finite history
+// whose steps respect the documented preconditions (`witness_history` below replays such a history against the
+// contracts alone).
+//
+// Abstract view: `nonempty()`, `lo()`, `hi()`, `has(r, c)` (absolute position inside), `at(r, c)` (value there).
+// Representation invariant `wf()`: corners ordered component-wise, spans representable in u32, and the buffer is empty
+// or holds exactly height * width cells (row-major).
+//
+// Values: the code produces defaults with `T::default()` + `Clone` and copies cells with `Clone`; for an arbitrary
+// `T` nothing relates a clone to its original.  Value clauses that involve cloned cells are therefore stated under the
+// hypothesis `lawful::<T>()` (clone returns an equal value, `default()` is a constant) -- a hypothesis on the type
+// parameter, not an assumption: it is proved for usize/u64/bool below and holds for Data, DataRef, String by their
+// derived/std impls (not checked here).  Shape clauses (wf, bounds, no-panic) hold for every T.
+//
+// TRUSTED (all visible below): 64-bit usize; Vec::shrink_to_fit keeps the contents; std::slice::Chunks as a cursor
+// (chunks / next); the contract of Range::range (external_body: its body uses chunks_mut/zip/clone_from_slice, outside
+// vstd; checked bounded by Kani harnesses range_window_*); one declared rewrite in from_sparse (map-closure loop header).
+// Bounded Kani (kani/range.rs, never counted as proved): range(), rows()/cells()/used_cells() + size_hint/next_back,
+// Index/IndexMut, a counterexample twin for set_value.
 #![feature(allocator_api)]
 #![allow(unused_imports, dead_code, unused_variables, unused_mut, unused_assignments)]
 use vstd::prelude::*;
@@ -22,9 +48,9 @@ pub assume_specification<T, A: Allocator>[ Vec::<T, A>::shrink_to_fit ](v: &mut 
 // will not have length chunk_size. Panics if chunk_size is zero."
 #[verifier::external_type_specification] #[verifier::external_body] #[verifier::reject_recursive_types(T)]
 pub struct ExChunks<'a, T: 'a>(Chunks<'a, T>);
+pub open spec fn imin(a: int, b: int) -> int { if a < b { a } else { b } }
 pub uninterp spec fn chunks_rem<'a, T>(c: Chunks<'a, T>) -> Seq<T>;
 pub uninterp spec fn chunks_size<'a, T>(c: Chunks<'a, T>) -> nat;
-pub open spec fn imin(a: int, b: int) -> int { if a < b { a } else { b } }
 pub assume_specification<T>[ <[T]>::chunks ](s: &[T], n: usize) -> (r: Chunks<'_, T>)
     requires n != 0,
     ensures chunks_rem(r) == s@, chunks_size(r) == n;
@@ -40,10 +66,14 @@ pub assume_specification<'a, T>[ <Chunks<'a, T> as Iterator>::next ](c: &mut Chu
 //@@ item src/lib.rs struct Cell
 //@@ item src/lib.rs struct Range
 
-pub open spec fn lawful<T: CellType>() -> bool {
+/// hypothesis on the cell type: `clone` returns an equal value and `default()` is a constant
+pub open spec fn lawful_cd<T: Default + Clone>() -> bool {
     &&& forall|a: T, b: T| call_ensures(T::clone, (&a,), b) ==> a == b
     &&& forall|a: T, b: T| call_ensures(T::default, (), a) && call_ensures(T::default, (), b) ==> a == b
 }
+pub open spec fn lawful<T: CellType>() -> bool { lawful_cd::<T>() }
+// the hypothesis is satisfiable: it holds for the integer cell type used by the crate's own tests (`impl CellType for usize`)
+proof fn witness_lawful() ensures lawful_cd::<usize>(), lawful_cd::<u64>(), lawful_cd::<bool>() {}
 pub open spec fn dflt<T: CellType>() -> T { choose|d: T| call_ensures(T::default, (), d) }
 
 impl<T: CellType> Range<T> {
@@ -412,6 +442,9 @@ proof fn lemma_idx(i: int, j: int, h: int, w: int)
     // ASSUMED in Verus (body: chunks().take().skip().zip(chunks_mut()...) + clone_from_slice, outside vstd); checked bounded by Kani.
     requires
         self.wf(),
+        // the source must be non-empty: on an empty source a window containing (0, 0) panics in `chunks(0)`
+        // (genuine defect, findings/range_5.rs, Kani harness range_window_empty) -- the assumed contract must not cover it
+        self.nonempty(),
         // precondition of Range::new (undocumented for `range`): corners ordered component-wise ...
         start.0 <= end.0, start.1 <= end.1,
         // ... and the u32 cell count of Range::new does not overflow
